@@ -78,8 +78,44 @@ def check(out, ctx):
                                   common.case_payload(c, st))
         if c.impl["k"] == "ERR" and "I:0" in c.impl["trace"]:
             failing_cached += 1
+    # long runs (implementation only): corpus/grammars/<name>.long lists (rule, unit, n, tail); the input
+    # unit*n + tail is built inside the harness, the evaluations are counted there from the recorded trace
+    import glob
+    import os
+    from .. import vp, genrun
+    long_runs = 0
+    long_evals = 0
+    for path in sorted(glob.glob(os.path.join(vp.VERIF, "corpus", "grammars", "*.long"))):
+        nm = os.path.basename(path)[:-5]
+        gid = "gk_" + nm
+        if gid not in st["exes"]:
+            continue
+        text = open(path[:-5] + ".ebnf", encoding="utf-8").read()
+        names = ",".join(sorted(r.encode().hex() for r in memo_rules(text)))
+        specs = [l.split("\t") for l in open(path, encoding="utf-8").read().split("\n") if l]
+        reqs = ["evals\t%s\t%s\t%s\t%s\t%s\t%s" % (gid, r.encode().hex(), u.encode().hex(), n, t.encode().hex(), names) for r, u, n, t in specs]
+        res = genrun.pipe_resilient(st["exes"][gid], reqs, per_line_timeout=300.0)
+        for (r, u, n, t), a in zip(specs, res):
+            f = a.split("\t")
+            desc = "%r * %s + %r" % (u, n, t)
+            if f[0] != "EVALS" or f[1] not in ("OK", "ERR"):
+                out.violation("c06long:%s:%s:%s" % (nm, r, desc), "long run of %s on %s does not finish with a result: %s" % (r, desc, a[:100]),
+                              {"grammar": text, "rule": r, "input": {"unit": u, "times": int(n), "tail": t}, "answer": a[:300]})
+                continue
+            long_runs += 1
+            long_evals += int(f[3])
+            if int(f[4]) > 0:
+                first = []
+                for x in f[5].split(","):
+                    h, off, k = x.split(":")
+                    first.append({"rule": bytes.fromhex(h).decode(), "offset": int(off), "times": int(k)})
+                out.violation("c06long:%s:%s:%s" % (nm, r, desc),
+                              "bodies of memoized rules evaluated more than once at %s (rule, offset) pairs on %s, e.g. %s %d times at offset %d"
+                              % (f[4], desc, first[0]["rule"], first[0]["times"], first[0]["offset"]),
+                              {"grammar": text, "rule": r, "input": {"unit": u, "times": int(n), "tail": t}, "result": f[1], "first": first,
+                               "reproduce": "parse unit*times+tail with rule %s of the grammar and count trace entries of the memoized rules that are not followed by 'Cache hit'" % r})
     common.stream_coverage(out, st, cases,
                            "cases of grammars with @memoize rules; inputs biased to failing parses; non-trivial = at least one cache hit; distinct by (grammar, rule, input)",
                            lambda c: "I:0" in c.impl.get("trace", ""),
-                           {"memoized_body_evaluations_counted": total_evals, "failing_parses_with_cache_hit": failing_cached, "cases_with_single_probe_oracle": probed,
+                           {"memoized_body_evaluations_counted": total_evals, "failing_parses_with_cache_hit": failing_cached, "cases_with_single_probe_oracle": probed, "long_runs": long_runs, "long_run_evaluations_counted": long_evals,
                             "model_vs_implementation_disagreements": bad})
